@@ -228,7 +228,86 @@ pub fn run(ctx: &Ctx) -> (Summary, String) {
         c
     });
     crate::merge(&mut s, t);
+    if !announced {
+        s.requests.extend(model_writer_requests(ctx));
+    }
     (s, extra)
+}
+
+/// model as writer (C04): requests for the frozen model to produce corrections for fresh streams
+/// under the estimator's and perturbed in-range parameters; `verify_model_written` then feeds what
+/// the model wrote to the CURRENT reader
+pub fn model_writer_requests(ctx: &Ctx) -> Vec<(String, String)> {
+    let n = ctx.n(400, 4000);
+    let mut out = Vec::new();
+    for i in 0..n {
+        let c = streams::case(ctx.seed ^ 0xC04, i, 6000, true);
+        let d = &c.s.bytes;
+        if d.len() > 5000 {
+            continue;
+        }
+        let size = match comp::zlib_inflate_raw(d, 1 << 26) {
+            Some((_, n)) => n,
+            None => continue,
+        };
+        let base = match guarded(|| vh::estimate(d)) {
+            Run::Done(Ok(v)) => v,
+            _ => continue,
+        };
+        let mut vs = vec![base.clone()];
+        if base[4] != 0 {
+            let mut r = Rng::new(ctx.seed ^ (i << 12));
+            vs.push(streams::perturb(&mut r, &base, 255));
+        }
+        for v in vs {
+            let vs: Vec<String> = v.iter().map(|x| x.to_string()).collect();
+            out.push((format!("analyzefull {} {}", vs.join(" "), hex(&d[..size])), "*".to_string()));
+        }
+    }
+    out
+}
+
+/// second stage of C04: `requests` are the analyzefull lines, `answers` what the model answered
+pub fn verify_model_written(dir: &str) -> bool {
+    let reqs = std::fs::read_to_string(format!("{dir}/requests.txt")).unwrap_or_default();
+    let answers = std::fs::read_to_string(format!("{dir}/model.txt")).unwrap_or_default();
+    let mut ok = true;
+    let (mut n, mut accepted) = (0, 0);
+    for (rq, an) in reqs.lines().zip(answers.lines()) {
+        if !rq.starts_with("analyzefull ") {
+            continue;
+        }
+        n += 1;
+        let d = unhex(rq.rsplit(' ').next().unwrap());
+        let t: Vec<&str> = an.split(' ').collect();
+        if t.len() != 3 || t[0] != "ok" {
+            continue; // the reference semantics reject this (stream, parameters) pair: nothing was written
+        }
+        accepted += 1;
+        let corr = unhex(t[2]);
+        let size: usize = t[1].parse().unwrap_or(0);
+        let plain = match comp::zlib_inflate_raw(&d, 1 << 28) {
+            Some((p, _)) => p,
+            None => continue,
+        };
+        let verdict = match guarded(|| recompress_deflate_stream(&plain, &corr)) {
+            Run::Panic(p) => Some(format!("model-written-panic {}", panic_signature(&p))),
+            Run::Done(Err(e)) => Some(format!("model-written-err {:?}", e.exit_code())),
+            Run::Done(Ok(y)) => {
+                if size <= d.len() && y[..] == d[..size] {
+                    None
+                } else {
+                    Some("model-written-differs".to_string())
+                }
+            }
+        };
+        if let Some(v) = verdict {
+            ok = false;
+            println!("FAIL {v} | current recompress_deflate_stream does not reproduce the stream from corrections written by the reference model | {rq}");
+        }
+    }
+    println!("model-as-writer: {n} requests, {accepted} written by the model and decoded by the current build");
+    ok
 }
 
 pub fn check(dir: &str, ctx: &Ctx) -> bool {
